@@ -28,13 +28,14 @@ def commentPieces (au : String × Bytes) (c : Comment) : List Piece :=
 theorem comment_run (c : Comment) (hc : XCommentOK c) (rest : List Ctx) :
     ∃ x, (bindE (intAttr "uid" c.uid) fun au => (Except.ok (commentPieces au c) : Except WErr (List Piece))) = .ok x ∧
       ∀ (st : RSt) (cur : Cur) (pre : List Sub) (cs0 : List Comment) (ps : List Piece),
-        st.stack = Ctx.discussion :: rest → st.cur = some cur → st.commentText = [] →
+        st.stack = Ctx.discussion :: rest → st.cur = some cur → st.commentText = [] → st.commentPending = false →
         cur.subs = pre ++ [.discussion cs0] →
         runPieces (x ++ ps) st = runPieces ps { st with cur := some { cur with subs := pre ++ [.discussion (cs0 ++ [c])] } } := by
   obtain ⟨hd, hu, hus, htx⟩ := hc
+  have hulen : c.user.length ≤ 1024 := (xstrOK_spec hus).choose_spec.2.2
   obtain ⟨uv, huv, puv, ruv⟩ := wInt_rUlong c.uid hu
   refine ⟨commentPieces ("uid", uv) c, by simp only [intAttr, huv, bindE_ok], ?_⟩
-  intro st cur pre cs0 ps hs hcur hct hsub
+  intro st cur pre cs0 ps hs hcur hct hcp hsub
   have hdec : decodeAttrs [("uid", uv), ("user", Xml.escape c.user), ("date", toIsoAll c.date)]
       = some [("uid", uv), ("user", c.user), ("date", toIsoAll c.date)] :=
     decodeAttrs_append_some (decodeAttrs_one (unescape_plain _ puv))
@@ -44,7 +45,8 @@ theorem comment_run (c : Comment) (hc : XCommentOK c) (rest : List Ctx) :
     simp (config := { decide := true }) [commentAttrs, ruv, rTimestamp_toIsoAll c.date hd]
   have hdec0 : decodeAttrs ([] : List (String × Bytes)) = some [] := rfl
   -- the states
-  let s1 : RSt := { st with stack := .comment :: .discussion :: rest, cur := some (addComment cur ⟨c.date, c.uid, c.user, []⟩) }
+  let s1 : RSt := { st with stack := .comment :: .discussion :: rest, cur := some (addComment cur ⟨c.date, c.uid, c.user, []⟩),
+                            commentPending := true }
   let s2 : RSt := { s1 with stack := .text :: .comment :: .discussion :: rest }
   let s3 : RSt := { s2 with commentText := c.text }
   have hnt0 : NoText st := by unfold NoText; rw [hs]; simp
@@ -57,18 +59,18 @@ theorem comment_run (c : Comment) (hc : XCommentOK c) (rest : List Ctx) :
     rw [text_close_step s3 (.comment :: .discussion :: rest) _ rfl rfl]
     have hcoll' : setCommentText (addComment cur ⟨c.date, c.uid, c.user, []⟩) c.text =
         { cur with subs := pre ++ [.discussion (cs0 ++ [c])] } := hcoll
-    simp only [s3, s2, s1, s4, hcoll', hct]
+    simp only [s3, s2, s1, s4, hcoll', hct, hcp]
   have hnt4 : NoText s4 := by unfold NoText; simp [s4]
   let s5 : RSt := { st with cur := some { cur with subs := pre ++ [.discussion (cs0 ++ [c])] } }
   have hclose_comment : endElement {} s4 = .ok s5 := by
-    rw [comment_close_step s4 (.discussion :: rest) rfl]
+    rw [comment_close_step s4 (.discussion :: rest) rfl hcp]
     simp only [s4, s5, hs]
   have hnt5 : NoText s5 := by unfold NoText; simp [s5, hs]
   simp only [commentPieces, List.cons_append, List.nil_append, sp, nl]
-  rw [runPieces_ws _ _ _ hnt0, runPieces_elem _ _ _ _ _ _ hdec, comment_step st rest cur hs hcur _ _ hca]
+  rw [runPieces_ws _ _ _ hnt0, runPieces_elem _ _ _ _ _ _ hdec, comment_step st rest cur hs hcur _ _ hca hulen]
   simp only [bindE_ok, Bool.false_eq_true, if_false]
   rw [runPieces_ws _ _ _ hnt1, runPieces_ws _ _ _ hnt1, runPieces_elem _ _ _ _ _ _ hdec0,
-    text_open_step s1 (.discussion :: rest) rfl]
+    text_open_step s1 (.discussion :: rest) rfl _ rfl]
   simp only [bindE_ok, Bool.false_eq_true, if_false]
   rw [runPieces_text _ _ _ s2 _ rfl (unescape_escape _ htx)]
   have e3 : ({ s2 with commentText := s2.commentText ++ c.text } : RSt) = s3 := by simp only [s3, h3ct]
@@ -85,14 +87,14 @@ def commentW (c : Comment) : Except WErr (List Piece) :=
 theorem comments_run (rest : List Ctx) (cs : List Comment) (hcs : ∀ c ∈ cs, XCommentOK c) :
     ∃ xs, mapE commentW cs = .ok xs ∧
       ∀ (st : RSt) (cur : Cur) (pre : List Sub) (cs0 : List Comment) (ps : List Piece),
-        st.stack = Ctx.discussion :: rest → st.cur = some cur → st.commentText = [] →
+        st.stack = Ctx.discussion :: rest → st.cur = some cur → st.commentText = [] → st.commentPending = false →
         cur.subs = pre ++ [.discussion cs0] →
         runPieces (xs.flatten ++ ps) st =
           runPieces ps { st with cur := some { cur with subs := pre ++ [.discussion (cs0 ++ cs)] } } := by
   induction cs with
   | nil =>
     refine ⟨[], rfl, ?_⟩
-    intro st cur pre cs0 ps hs hc hct hsub
+    intro st cur pre cs0 ps hs hc hct hcp hsub
     have : ({ st with cur := some { cur with subs := pre ++ [.discussion cs0] } } : RSt) = st := by
       cases st; cases cur; simp_all
     simp only [List.flatten_nil, List.nil_append, List.append_nil, this]
@@ -100,11 +102,11 @@ theorem comments_run (rest : List Ctx) (cs : List Comment) (hcs : ∀ c ∈ cs, 
     obtain ⟨xs, hxs, hrun⟩ := ih (fun c' hc' => hcs c' (by simp [hc']))
     obtain ⟨x, hx, hx1⟩ := comment_run c (hcs c (by simp)) rest
     refine ⟨x :: xs, by rw [mapE, commentW, hx, bindE_ok, hxs, bindE_ok], ?_⟩
-    intro st cur pre cs0 ps hs hc hct hsub
+    intro st cur pre cs0 ps hs hc hct hcp hsub
     have e : (x :: xs).flatten ++ ps = x ++ (xs.flatten ++ ps) := by simp
-    rw [e, hx1 st cur pre cs0 _ hs hc hct hsub,
+    rw [e, hx1 st cur pre cs0 _ hs hc hct hcp hsub,
       hrun { st with cur := some { cur with subs := pre ++ [.discussion (cs0 ++ [c])] } }
-        { cur with subs := pre ++ [.discussion (cs0 ++ [c])] } pre (cs0 ++ [c]) ps hs rfl hct rfl]
+        { cur with subs := pre ++ [.discussion (cs0 ++ [c])] } pre (cs0 ++ [c]) ps hs rfl hct hcp rfl]
     simp
 
 theorem discussionPieces_eq (cs : List Comment) :
@@ -115,13 +117,13 @@ theorem discussionPieces_eq (cs : List Comment) :
 theorem discussion_run (rest : List Ctx) (cs : List Comment) (hcs : ∀ c ∈ cs, XCommentOK c) :
     ∃ ds, discussionPieces cs = .ok ds ∧
       ∀ (st : RSt) (cur : Cur) (ps : List Piece), st.stack = Ctx.changeset :: rest → st.cur = some cur →
-        st.commentText = [] → (∀ x, cur.subs.getLast? ≠ some (.discussion x)) →
+        st.commentText = [] → st.commentPending = false → (∀ x, cur.subs.getLast? ≠ some (.discussion x)) →
         runPieces (ds ++ ps) st =
           runPieces ps { st with cur := some { cur with subs := cur.subs ++ [.discussion cs], lastOpen := true } } := by
   obtain ⟨xs, hxs, hrun⟩ := comments_run (Ctx.changeset :: rest) cs hcs
   refine ⟨[sp 2, Piece.elem "discussion" [] false, nl] ++ xs.flatten ++ [sp 2, .close "discussion", nl],
     by rw [discussionPieces_eq, hxs, bindE_ok], ?_⟩
-  intro st cur ps hs hc hct hlast
+  intro st cur ps hs hc hct hcp hlast
   have hdec0 : decodeAttrs ([] : List (String × Bytes)) = some [] := rfl
   have hnt0 : NoText st := by unfold NoText; rw [hs]; simp
   let s1 : RSt := { st with stack := .discussion :: .changeset :: rest, cur := some (openDiscussion cur) }
@@ -137,7 +139,7 @@ theorem discussion_run (rest : List Ctx) (cs : List Comment) (hcs : ∀ c ∈ cs
   simp only [List.cons_append, List.nil_append, List.append_assoc, sp, nl]
   rw [runPieces_ws _ _ _ hnt0, runPieces_elem _ _ _ _ _ _ hdec0, discussion_open_step st rest cur hs hc]
   simp only [bindE_ok, Bool.false_eq_true, if_false]
-  rw [runPieces_ws _ _ _ hnt1, hrun s1 (openDiscussion cur) cur.subs [] _ rfl rfl hct (by rw [hopen])]
+  rw [runPieces_ws _ _ _ hnt1, hrun s1 (openDiscussion cur) cur.subs [] _ rfl rfl hct hcp (by rw [hopen])]
   have e2 : ({ s1 with cur := some { openDiscussion cur with subs := cur.subs ++ [.discussion ([] ++ cs)] } } : RSt) = s2 := by
     simp only [s2, c2, hopen]
   rw [e2, runPieces_ws _ _ _ hnt2, runPieces_close, hclose]
